@@ -11,7 +11,7 @@ func alignWindowStart
   ensures nonpositive-size: windowSize <= 0 ==> result == timestamp
   ensures below: windowSize > 0 ==> result <= timestamp
   ensures within: windowSize > 0 ==> timestamp < result + windowSize
-  ensures aligned: windowSize > 0 ==> result % windowSize == 0
+  ensures aligned: windowSize > 0 ==> divides(windowSize, result)
 
 func (*TumblingWindow).createSlot
   props C01
@@ -19,7 +19,7 @@ func (*TumblingWindow).createSlot
   ensures fresh: fresh(result)
   ensures shape: slotOK(result, tw.size)
   ensures covers: *result.Start <= t && t < *result.End
-  ensures aligned: *result.Start % tw.size == 0
+  ensures aligned: divides(tw.size, *result.Start)
 
 func (*TumblingWindow).createSlotFromStart
   props C01
@@ -34,7 +34,7 @@ func (*TumblingWindow).NextSlot
   ensures nil: tw.currentSlot == nil ==> result == nil
   ensures fresh: tw.currentSlot != nil ==> fresh(result)
   ensures chain: tw.currentSlot != nil ==> slotOK(result, tw.size) && *result.Start == *tw.currentSlot.End
-  ensures alignment-preserved: tw.currentSlot != nil && tw.size > 0 && slotOK(tw.currentSlot, tw.size) && *tw.currentSlot.Start % tw.size == 0 ==> *result.Start % tw.size == 0
+  ensures alignment-preserved: tw.currentSlot != nil && tw.size > 0 && slotOK(tw.currentSlot, tw.size) && divides(tw.size, *tw.currentSlot.Start) ==> divides(tw.size, *result.Start)
 
 func (*TumblingWindow).dropLastRow
   props C01 C02
@@ -135,7 +135,8 @@ monitor TumblingWindow.mu inv twNoStranded
 pred twInv(tw) := tw.size > 0
   && (tw.initialized ==> tw.currentSlot != nil)
   && (!tw.initialized ==> len(tw.data) == 0)
-  && (tw.currentSlot != nil ==> slotOK(tw.currentSlot, tw.size) && *tw.currentSlot.Start % tw.size == 0)
+  && (tw.currentSlot != nil ==> slotOK(tw.currentSlot, tw.size))
+  && (tw.currentSlot != nil ==> divides(tw.size, *tw.currentSlot.Start))
   && tw.triggeredWindows != nil
   && forallv(k, "", dom(tw.triggeredWindows, k) ==> tw.triggeredWindows[k] != nil && slotOK(tw.triggeredWindows[k].slot, tw.size))
 
@@ -151,6 +152,7 @@ func (*TumblingWindow).getWindowKey
 
 func (*TumblingWindow).sendResult
   props C01
+  modifies tw.sentCount, tw.droppedCount
   ensures true
 
 func (*TumblingWindow).extractLateUpdateDataLocked
@@ -276,7 +278,8 @@ monitor SlidingWindow.mu inv swInv
 
 pred swInv(sw) := sw.size > 0 && sw.slide > 0
   && (sw.initialized ==> sw.currentSlot != nil)
-  && (sw.currentSlot != nil ==> slotOK(sw.currentSlot, sw.size) && *sw.currentSlot.Start % sw.slide == 0)
+  && (sw.currentSlot != nil ==> slotOK(sw.currentSlot, sw.size))
+  && (sw.currentSlot != nil ==> divides(sw.slide, *sw.currentSlot.Start))
   && sw.triggeredWindows != nil
   && forallv(k, "", dom(sw.triggeredWindows, k) ==> sw.triggeredWindows[k] != nil && slotOK(sw.triggeredWindows[k].slot, sw.size))
 
@@ -285,7 +288,7 @@ func (*SlidingWindow).createSlot
   requires sw.slide > 0
   ensures fresh: fresh(result)
   ensures shape: slotOK(result, sw.size)
-  ensures slide-aligned: *result.Start % sw.slide == 0
+  ensures slide-aligned: divides(sw.slide, *result.Start)
   ensures not-after-event: *result.Start <= t && t < *result.Start + sw.slide
 
 func (*SlidingWindow).createSlotFromStart
@@ -301,7 +304,7 @@ func (*SlidingWindow).NextSlot
   ensures nil: sw.currentSlot == nil ==> result == nil
   ensures fresh: sw.currentSlot != nil ==> fresh(result)
   ensures advances-by-slide: sw.currentSlot != nil ==> result.Start != nil && result.End != nil && *result.Start == *sw.currentSlot.Start + sw.slide && *result.End == *sw.currentSlot.End + sw.slide
-  ensures alignment-preserved: sw.currentSlot != nil && sw.slide > 0 && *sw.currentSlot.Start % sw.slide == 0 ==> *result.Start % sw.slide == 0
+  ensures alignment-preserved: sw.currentSlot != nil && sw.slide > 0 && divides(sw.slide, *sw.currentSlot.Start) ==> divides(sw.slide, *result.Start)
 
 func (*SlidingWindow).dropLastRow
   props C08 C02
@@ -317,6 +320,7 @@ func (*SlidingWindow).getWindowKey
 
 func (*SlidingWindow).sendResult
   props C08
+  modifies sw.sentCount, sw.droppedCount
   ensures true
 
 func (*SlidingWindow).extractWindowDataLocked
@@ -460,6 +464,7 @@ extern (*CountingWindow).getKey
 
 func (*CountingWindow).sendResult
   props C09
+  modifies cw.sentCount, cw.droppedCount
   ensures true
 
 func (*CountingWindow).createSlot
